@@ -334,6 +334,14 @@ def get_levy_flight_step(
     return step[0] if size == 1 else step
 
 
+def _reseed_worker():
+    """
+    Initializer of the worker processes: with the fork start method every worker inherits the state of the parent's
+    global random generator, so all of them would replay the same random stream. Reseed each from fresh entropy.
+    """
+    np.random.seed()
+
+
 def get_pool_executor(mode: ModeSolver, n_workers: int = None) -> parallel.Executor:
     """
     Get the executor of the provided mode.
@@ -343,7 +351,8 @@ def get_pool_executor(mode: ModeSolver, n_workers: int = None) -> parallel.Execu
     :rtype: parallel.Executor
     """
     return (
-        parallel.ThreadPoolExecutor(n_workers) if mode == ModeSolver.THREAD else parallel.ProcessPoolExecutor(n_workers)
+        parallel.ThreadPoolExecutor(n_workers) if mode == ModeSolver.THREAD
+        else parallel.ProcessPoolExecutor(n_workers, initializer=_reseed_worker)
     )
 
 
